@@ -186,8 +186,14 @@ func (s *Seq) mangleScenario(r *simrt.Rand) []string {
 		}
 		path := dir + "/" + target
 		data, ok := fsys.RawRead(path)
-		kind := r.Intn(9)
+		kind := r.Intn(10)
 		switch {
+		case kind == 9:
+			// the whole file becomes another JSON value
+			v := []string{"null", "[]", "{}", "\"\"", "0", "true", "[null]", "{\"index\":null}", "{\"fields\":null,\"index\":{\"fields\":null,\"object-ids\":null}}"}[r.Intn(9)]
+			fsys.RawWrite(path, []byte(v))
+			muts = append(muts, fmt.Sprintf("replace-whole-file %s with %s", target, v))
+			s.stat("fault:replace-whole-file")
 		case kind == 0 && ok && len(data) > 0:
 			off := r.Intn(len(data))
 			data[off] ^= 1 << uint(r.Intn(8))
@@ -282,9 +288,40 @@ func (s *Seq) mangleCalls(r *simrt.Rand, muts []string) {
 	for _, l := range s.M.Lids() {
 		uuids = append(uuids, s.M.UUID[l])
 	}
+	// if only object files were damaged and one of them cannot be decoded any more,
+	// a call that has to read every object must say so
+	schemaTouched := false
+	for _, m := range muts {
+		if strings.Contains(m, "schema.json") || strings.HasPrefix(m, "stray") {
+			schemaTouched = true
+		}
+	}
+	_, _, derr := DiskObjects(s.W.FS, CollDir(s.Root, s.Cfg.Lower), s.Cfg.Ext, s.Cfg.Compress)
+	mustFail := !schemaTouched && derr != nil
 	call("Schema", func() { db.Schema(rec0()) })
 	call("Count", func() { db.Count(rec0()) })
-	call("All", func() { db.All(rec0()) })
+	call("All", func() {
+		objs, err := db.All(rec0())
+		if mustFail && err == nil {
+			s.fail("mangle", "unreadable-object-unreported:All", "an object file cannot be decoded (%v; damage %v) but All returned %d objects and no error", derr, muts, len(objs))
+		}
+	})
+	if mustFail {
+		for _, pth := range []string{"Lid", "Raw", "S", "I64", "F64"} {
+			if s.Cfg.Cons[pth].Indexed() {
+				continue
+			}
+			call("Search-unindexed", func() {
+				sr := db.Search(rec0(), pth, "!=", GenProbe(r, s.Pools, pth).Go())
+				objs, err := sr.Collect()
+				if sr.Err() == nil && err == nil {
+					s.fail("mangle", "unreadable-object-unreported:Search", "an object file cannot be decoded (%v; damage %v) but a full-scan search on %s returned %d objects and no error", derr, muts, pth, len(objs))
+				}
+			})
+			s.stat("probe:unreadable-object-must-be-reported")
+			break
+		}
+	}
 	call("AssignAll", func() { var out []*shapes.Rec; db.AssignAll(rec0(), &out) })
 	for _, u := range uuids {
 		call("Get", func() { o := rec0(); o.Initialize(u); db.Get(o) })
